@@ -450,7 +450,7 @@ def rule_layout(chk, tree):
 
 
 # ----------------------------------------------------------------------------
-def analyse(chk):
+def _analyse_own(chk):
     tree = chk.tree
     chk.rule("shape-guard", "the input-shape test dominates every libfft call of FFTWrapper.call; output uses _outshape")
     chk.rule("ffi", "libfft call sites conform to cider_fft.c prototypes; restype for pointer returns")
@@ -496,6 +496,12 @@ def analyse(chk):
     chk.not_decided += ["that the transform computed is the DFT",
                         "padded in-place real layout arithmetic beyond write/read agreement and the row length",
                         "input dtype / contiguity (call() does not test them)", "MPI plan (mpi_fft_plan.py)"]
+
+
+def analyse(chk):
+    _analyse_own(chk)
+    chk.guard(lambda c_: core.include_findings(c_, 'C10', files=['ciderpress/lib/fft_wrapper/cider_fft.c'], rules=None,
+                                               why='a data race in the plan execution / copy loops corrupts the transform'))
 
 
 def mutants(tree):
